@@ -222,7 +222,8 @@ def run_shard(shard, rec, tier, seed):
             rec.sample({"canonical": base, "near_misses": near_misses(rng, base, limit=4)})
         if rec.full:
             break
-    pool = [x for x in OTHER_KIND_LINES if recog.instrument_line(x) == recog.REJECT and x not in ("{", "}")] + rejects
+    # (lines that are a brace once blanks are stripped are left out of SECTIONS: whether a padded brace still frames is open)
+    pool = [x for x in OTHER_KIND_LINES + rejects if recog.instrument_line(x) == recog.REJECT and x.strip() not in ("{", "}")]
     for j in range(shard["sections"]):
         section_route(rec, harness.rng_for(seed, ID, shard["name"], f"s{j}"), pool)
         if rec.full:
